@@ -83,6 +83,30 @@ def after_failure_worker(fmt):
     return p.d
 
 
+# parts whose only use of `hi` / `pkt` is indirect (rounding mode of float ops, slot cancel, PC): compiled through
+# transform_insn, the needs_hi / needs_pkt flags must follow the text
+META_TEMPLATES = ["{ R1 = fUNFLOAT(FLOAT(RZ_FLOAT_IEEE754_BIN_32, R2)+FLOAT(RZ_FLOAT_IEEE754_BIN_32, R3)); }",
+                  "{ HEX_REG_ALIAS_LR = fUNFLOAT(FLOAT(RZ_FLOAT_IEEE754_BIN_32, HEX_REG_ALIAS_SP)*FLOAT(RZ_FLOAT_IEEE754_BIN_32, HEX_REG_ALIAS_FP)); }",
+                  "{ R1:0 = fUNDOUBLE(DOUBLE(RZ_FLOAT_IEEE754_BIN_64, R3:2)-DOUBLE(RZ_FLOAT_IEEE754_BIN_64, R3:2)); }",
+                  "{ R1 = HEX_REG_ALIAS_PC; }", "{ R1 = 5; }", "{ R1 = R2 + 1; }", "{ RdV = RsV; }", "{ RdV = siV; }",
+                  "{ R1 = fUNFLOAT(FLOAT(RZ_FLOAT_IEEE754_BIN_32, R2)/FLOAT(RZ_FLOAT_IEEE754_BIN_32, R3)); cancel_slot; }",
+                  "{ cancel_slot; }", "{ HEX_REG_ALIAS_LR = HEX_REG_ALIAS_PC + 8; }", "{ RdV = NsN; }"]
+
+
+def meta_template_part(ctx):
+    for fmt in ("stmt", "exec"):
+        c = boot.compiler(fmt)
+        for i, text in enumerate(META_TEMPLATES):
+            ctx.evaluations += 1
+            st, res = diff.compile_insn(c, f"META_c11_{i}", [text])
+            if st != "ok":
+                ctx.count("meta template rejected")
+                continue
+            ctx.nontriv(("meta-template", text, fmt))
+            for kind, msg in meta_issues(res, 0, res.rzil[0]):
+                ctx.failure(f"C11 meta template {kind} [{fmt}]", {"program": text, "fmt": fmt, "issue": msg, "il": res.rzil[0]})
+
+
 def run_check(ctx):
     ctx.rule = ("every accepted corpus part (thorough: all; quick: 120 stratified) and every bundled sub-routine definition in both "
                 "layouts + Hypothesis programs (many operands, folded constants, hybrids); checks statement shapes, declared-once, "
@@ -92,6 +116,7 @@ def run_check(ctx):
     static_common.run_static(ctx, "C11", FEATURES, extra_fn=meta_issues)
     run.run_sharded(ctx, getter_worker, [(sorted(boot.corpus()),)], procs=1)
     run.run_sharded(ctx, after_failure_worker, [("stmt",), ("exec",)], procs=2)
+    meta_template_part(ctx)
 
 
 def replay(rep):
